@@ -940,6 +940,166 @@ def run_abortwake(sc):
         shutil.rmtree(root, ignore_errors=True)
 
 
+def run_twoexp(sc):
+    """Two experiments (schedulers) of ONE process ask the same token name (equal or different totals), nested or
+    one after the other; slow-starting jobs holding one unit each; never more running jobs than the total written
+    in token.info, and every running job has its token file."""
+    import asyncio
+    root = Path(tempfile.mkdtemp(prefix="xpmverif-tok2-", dir=sc.get("scratch")))
+    res = dict(error=None)
+    try:
+        from experimaestro import experiment
+        from experimaestro.commandline import CommandLineJob
+        from vpk_c08.tasks import HoldTask
+        os.environ["XPM_WORKDIR"] = str(root / "xpmhome")
+        t1, t2 = sc.get("totals", [2, 3])
+        n1, n2 = sc.get("jobs", [3, 3])
+        nested = sc.get("nested", True)
+        orig = CommandLineJob.aio_run
+
+        async def slow_run(self):
+            await asyncio.sleep(sc.get("delay", 0.4))
+            return await orig(self)
+
+        CommandLineJob.aio_run = slow_run
+        tasks = []
+
+        def submit(xp, token, xs):
+            for x in xs:
+                task = HoldTask(dir=root, x=x)
+                task.add_dependencies(token.dependency(1))
+                task.submit()
+                tasks.append(x)
+
+        def running():
+            return [x for x in tasks if (root / ("started.%d" % x)).exists() and not (root / ("ended.%d" % x)).exists()]
+
+        def observe(tokdir, label):
+            # let the schedulers start what they think they can start
+            limit = time.time() + sc.get("settle", 5.0)
+            total = int((tokdir / "token.info").read_text())
+            while time.time() < limit and len(running()) <= total:
+                time.sleep(0.1)
+            time.sleep(0.3)
+            run = running()
+            files = sorted(f.name[:8] for f in tokdir.glob("*.token"))
+            res[label] = dict(total=total, running=len(run), token_files=len(files))
+            return total
+
+        try:
+            with experiment(root / "ws1", "xp1", port=-1) as xp1:
+                xp1.workspace.launcher.setenv("PYTHONPATH", os.environ.get("PYTHONPATH", ""))
+                tok1 = xp1.token("shared", t1)
+                res["same_object"] = None
+                submit(xp1, tok1, range(0, n1))
+                if nested:
+                    with experiment(root / "ws2", "xp2", port=-1) as xp2:
+                        xp2.workspace.launcher.setenv("PYTHONPATH", os.environ.get("PYTHONPATH", ""))
+                        tok2 = xp2.token("shared", t2)
+                        res["same_object"] = tok2 is tok1
+                        submit(xp2, tok2, range(10, 10 + n2))
+                        observe(tok1.path, "both")
+                        (root / "go").write_text("go")
+                        xp2.wait()
+                    xp1.wait()
+                else:
+                    observe(tok1.path, "first")
+                    (root / "go").write_text("go")
+                    xp1.wait()
+            if not nested:
+                (root / "go").unlink()
+                with experiment(root / "ws2", "xp2", port=-1) as xp2:
+                    xp2.workspace.launcher.setenv("PYTHONPATH", os.environ.get("PYTHONPATH", ""))
+                    tok2 = xp2.token("shared", t2)
+                    res["same_object"] = tok2 is tok1
+                    submit(xp2, tok2, range(10, 10 + n2))
+                    observe(tok2.path, "second")
+                    (root / "go").write_text("go")
+                    xp2.wait()
+        finally:
+            CommandLineJob.aio_run = orig
+            (root / "go").write_text("go")
+        return res
+    finally:
+        shutil.rmtree(root, ignore_errors=True)
+
+
+def leftexp_holder(rootdir, how):
+    """Process A: its experiment is left (exception / stop) while its job holds the token and runs."""
+    root = Path(rootdir)
+    from experimaestro import experiment
+    from vpk_c08.tasks import HoldTask
+    try:
+        with experiment(root / "wsA", "xpA", port=-1) as xp:
+            xp.workspace.launcher.setenv("PYTHONPATH", os.environ.get("PYTHONPATH", ""))
+            token = T.CounterToken("tok", root / "shared-token", 1)
+            task = HoldTask(dir=root, x=1)
+            task.add_dependencies(token.dependency(1))
+            task.submit()
+            limit = time.time() + 60
+            while not (root / "started.1").exists() and time.time() < limit:
+                time.sleep(0.02)
+            time.sleep(0.3)
+            if how == "exception":
+                raise RuntimeError("a bug in the experiment script")
+            raise KeyboardInterrupt()
+    except (RuntimeError, KeyboardInterrupt):
+        pass
+    time.sleep(0.5)
+    (root / "exited.A").write_text("left")
+    limit = time.time() + 60
+    while not (root / "stop.A").exists() and time.time() < limit:
+        time.sleep(0.05)
+    os._exit(0)
+
+
+def run_leftexp(sc):
+    """An experiment is left by an exception while its token-holding job (a detached process) still runs; then
+    another process asks for the token: the job's token file must still be there and the request refused."""
+    root = Path(tempfile.mkdtemp(prefix="xpmverif-tokl-", dir=sc.get("scratch")))
+    res = dict(error=None)
+    holder = None
+    try:
+        holder = subprocess.Popen([sys.executable, "-W", "ignore", __file__, "holder", str(root), sc.get("how", "exception")],
+                                  stdout=subprocess.DEVNULL, stderr=subprocess.DEVNULL)
+        limit = time.time() + 60
+        while not (root / "exited.A").exists():
+            if time.time() > limit or holder.poll() is not None:
+                return dict(error="the holder process did not get through")
+            time.sleep(0.05)
+        tokdir = root / "shared-token"
+        res["job_running"] = (root / "started.1").exists() and not (root / "ended.1").exists()
+        res["token_files"] = sorted(f.name[:8] for f in tokdir.glob("*.token"))
+        # a second scheduler process (this one) asks for the token
+        install_shims()
+        me = EProc()
+        me.alive = me.obs = True
+        Ctx.proc = me
+        tok = T.CounterToken("tok", tokdir, 1)
+        d = tok.dependency(1)
+        dep2_target(d, root)
+        granted = True
+        try:
+            tok.acquire(d)
+            tok.release(d)
+        except LockError:
+            granted = False
+        res["second_request_granted"] = granted
+        res["available_seen_by_second"] = int(tok.available)
+        res["job_running_after"] = (root / "started.1").exists() and not (root / "ended.1").exists()
+        return res
+    finally:
+        (root / "go").write_text("go")
+        (root / "stop.A").write_text("stop")
+        if holder is not None:
+            try:
+                holder.wait(8)
+            except Exception:
+                holder.kill()
+        time.sleep(0.3)
+        shutil.rmtree(root, ignore_errors=True)
+
+
 def dep2_target(dep, root):
     dep.target = FakeJob(99, root)
     dep.loop = FakeLoop()
@@ -1100,6 +1260,10 @@ def run_one(sc):
         return run_probe(sc)
     if kind == "abortwake":
         return run_abortwake(sc)
+    if kind == "twoexp":
+        return run_twoexp(sc)
+    if kind == "leftexp":
+        return run_leftexp(sc)
     raise ValueError(kind)
 
 
@@ -1183,6 +1347,8 @@ def run_forked(sc, timeout):
 def main():
     if len(sys.argv) > 1 and sys.argv[1] == "other":
         other_token_user(sys.argv[2], sys.argv[3])
+    if len(sys.argv) > 1 and sys.argv[1] == "holder":
+        leftexp_holder(sys.argv[2], sys.argv[3])
     payload = json.load(sys.stdin)
     if "scenarios" in payload:
         res = [run_forked(sc, payload.get("timeout", 30)) for sc in payload["scenarios"]]
